@@ -80,6 +80,7 @@ def child_main(a):
         ctx.inconclusive_because('harness-crash: ' + traceback.format_exc()[-1500:])
     res = ctx.result()
     res['anchors'] = monitors.coverage_report(getattr(mod, 'ANCHORS', []))
+    res['lines_hit'] = {os.path.relpath(f, core.REPO): sorted(v) for f, v in monitors.lines_hit.items()}
     with open(os.path.join(outdir, f'shard-{k}.json'), 'w') as fh:
         core.jdump(res, fh)
     core.write_digests(os.path.join(outdir, f'shard-{k}.digests'), ctx.seen)
